@@ -241,3 +241,72 @@ def proper_shapes():
     out.append(Shape(3, 2, [[0, 1], [0, 1], [0]], {(0, 0): {1: 1, 2: 0}, (0, 1): {0: Q1, 2: Q3}, (1, 0): {2: 1, 0: 0}, (1, 1): {0: H, 2: H},
                                                    (2, 0): {2: 1, 1: 0}}, absorb=[], gamma=F(1), name='p-three-implicit-zero'))
     return out
+
+
+# =============================================================================================
+# POMDP shapes
+class PShape(Shape):
+    """Shape + observation kernel obs[(a, ns)] = {o: Fraction} over observation labels olabels"""
+
+    def __init__(self, *a, obs=None, olabels=None, **kw):
+        super().__init__(*a, **kw)
+        self.obs = {k: dict(v) for k, v in obs.items()}
+        self.olabels = list(olabels)
+        for k, row in self.obs.items():
+            assert sum(row.values()) == 1, (k, row)
+
+
+def build_pomdp(sx, sh, rew, obs_override=None):
+    """a TabularPOMDP subclass instance whose methods read the shape's tables"""
+    from msdm.core.pomdp import TabularPOMDP
+    from msdm.core.distributions import DictDistribution
+    L, AL, OL = sh.slabels, sh.alabels, sh.olabels
+    si = {l: i for i, l in enumerate(L)}
+    ai = {l: i for i, l in enumerate(AL)}
+    c = sx.const
+    obs = obs_override or {k: {o: c(p) for o, p in row.items()} for k, row in sh.obs.items()}
+
+    class P(TabularPOMDP):
+        discount_rate = c(sh.gamma) if sh.gamma != 1 else 1.0
+
+        def initial_state_dist(self):
+            return DictDistribution({L[s]: c(p) for s, p in sh.s0.items()})
+
+        def actions(self, s):
+            return tuple(AL[a] for a in sh.avail[si[s]])
+
+        def is_absorbing(self, s):
+            return si[s] in sh.absorb
+
+        def reward(self, s, a, ns):
+            return rew[(si[s], ai[a], si[ns])]
+
+        def next_state_dist(self, s, a):
+            return DictDistribution({L[ns]: c(p) for ns, p in sh.rows[(si[s], ai[a])].items()})
+
+        def observation_dist(self, a, ns):
+            return DictDistribution({OL[o]: p for o, p in obs[(ai[a], si[ns])].items()})
+    return P()
+
+
+def pomdp_shapes():
+    H, Q1, Q3, T = F(1, 2), F(1, 4), F(3, 4), F(1, 3)
+    out = []
+    # tiger-like: 2 states, listen keeps state, open resets; obs depends on action AND state (asymmetric)
+    out.append(PShape(2, 2, [[0, 1], [0, 1]],
+                      {(0, 0): {0: 1}, (1, 0): {1: 1}, (0, 1): {0: H, 1: H}, (1, 1): {0: Q1, 1: Q3}},
+                      s0={0: H, 1: H}, gamma=F(9, 10), name='tiger-like',
+                      obs={(0, 0): {0: F(17, 20), 1: F(3, 20)}, (0, 1): {0: F(1, 5), 1: F(4, 5)}, (1, 0): {0: H, 1: H}, (1, 1): {0: 1, 1: 0}},
+                      olabels=['hear-left', 'hear-right']))
+    # 3 states, explicit absorbing state 2, zero entries in T and O, 3 observations
+    out.append(PShape(3, 2, [[0, 1], [0, 1], [0, 1]],
+                      {(0, 0): {1: Q3, 0: Q1}, (0, 1): {2: H, 0: H}, (1, 0): {2: 1}, (1, 1): {0: T, 1: T, 2: T}, (2, 0): {2: 1}, (2, 1): {0: 1}},
+                      absorb=[2], s0={0: Q3, 1: Q1}, gamma=F(1, 2), name='abs3',
+                      obs={(0, 0): {0: 1}, (0, 1): {1: H, 2: H}, (0, 2): {2: 1}, (1, 0): {0: Q1, 1: Q3}, (1, 1): {1: 1}, (1, 2): {0: T, 1: T, 2: T}},
+                      olabels=['o0', ('o', 1), 2]))
+    # fully observable kernel (observation reveals the state), 2 states
+    out.append(PShape(2, 2, [[0, 1], [0, 1]],
+                      {(0, 0): {0: Q1, 1: Q3}, (0, 1): {0: 1}, (1, 0): {1: H, 0: H}, (1, 1): {1: 1}},
+                      s0={0: Q1, 1: Q3}, gamma=F(1, 2), name='revealing2',
+                      obs={(0, 0): {0: 1}, (0, 1): {1: 1}, (1, 0): {0: 1}, (1, 1): {1: 1}}, olabels=['see0', 'see1']))
+    return out
